@@ -24,8 +24,8 @@ pub fn documents(thorough: bool) -> Vec<Doc> {
 		.map(|d| Doc { common: d.family != "nonfinite", v: d.v, family: d.family })
 		.collect();
 	// large collections (size hints / length headers)
-	for len in [15usize, 16, 17, 255, 256, 257, 4095, 4096, 4097, 65535, 65536, 65537] {
-		if len > 5000 && !thorough && len != 65536 {
+	for len in [15usize, 16, 17, 255, 256, 257, 4095, 4096, 4097, 32768, 65535, 65536, 65537] {
+		if len > 5000 && !thorough && len != 65536 && len != 32768 {
 			continue;
 		}
 		docs.push(Doc { v: V::Arr((0..len).map(|i| V::Int((i % 7) as i128)).collect()), family: "sized", common: true });
@@ -131,6 +131,16 @@ fn check_pair(t: &mut Tally, x: &[u8], a: F, b: F, doc: Option<&Doc>, family: &s
 		let back = hop(&y.out, b, a, mode);
 		t.evaluations += 1;
 		if !back.ok || back.out != reference.out {
+			// known finding: the toml crate writes arrays of tables before tables inside nested tables
+			if b == F::Toml && back.ok {
+				if let Some(xr) = spell_doc(a, &doc.v.toml_reordered().toml_reordered_as_observed(true), Style(0)) {
+					let alt = hop(&xr, a, a, Mode::Slice);
+					if alt.ok && alt.out == back.out {
+						t.bad("toml-nested-array-of-tables-before-tables", case("round-trip"), format!("{family}: x={} via toml comes back as {} (entry order inside a nested table)", show(x), show(&back.out)));
+						break;
+					}
+				}
+			}
 			t.bad(format!("round-trip-differs:{}->{}->{}", a.name(), b.name(), a.name()), case("round-trip"),
 				format!("{family}: x={} via {}: back [{}] {} | direct {}->{} {}", show(x), b.name(), mode.name(), back.brief(), a.name(), a.name(), reference.brief()));
 			break;
